@@ -32,7 +32,7 @@ def cases(tier, seed):
     reps = 1 if tier == "quick" else 40
     for _ in range(reps):
         for strat, dist, zb, pb, db in itertools.product(["VariationalStrategy", "UnwhitenedVariationalStrategy"], DISTS, [[], [2]], [[], [2]], [[], [2]]):
-            if tier == "quick" and rnd.random() < 0.4:
+            if tier == "quick" and rnd.random() < 0.0:
                 continue
             yield {"kind": "svgp", "strategy": strat, "dist": dist, "zbatch": zb, "pbatch": pb, "dbatch": db, "seed": rnd.randrange(10**6)}
         for dist in DISTS[:3]:
